@@ -58,11 +58,12 @@ WellFormed(items) ==
 CONSTANT Size      \* "tiny" | "small" | "medium"
 
 SeqUpTo(S, n) == UNION {[1..j -> S] : j \in 0..n}
+\* "am" and "BA" are look-alikes: names that merely *contain* another name of the domain (a match must be exact)
 Leaf ==
   {Assign("a"), AnnAssign("m"), Func("a", <<>>, <<>>), Func("m", <<"a">>, <<>>), Func("a", <<"a", "m">>, <<>>),
-   Func("m", <<"m">>, <<"a">>), Other("x")}
+   Func("m", <<"m">>, <<"a">>), Other("x"), Func("am", <<"a">>, <<>>)}
 Inner == {Cls("B", <<>>), Cls("B", <<Func("m", <<"a">>, <<>>)>>), Cls("A", <<AnnAssign("a")>>),
-          Cls("B", <<Func("a", <<"m">>, <<>>), Cls("A", <<Assign("m")>>)>>)}
+          Cls("B", <<Func("a", <<"m">>, <<>>), Cls("A", <<Assign("m")>>)>>), Cls("BA", <<AnnAssign("a")>>)}
 Member == Leaf \cup Inner
 Bodies ==
   IF Size = "tiny"
@@ -81,7 +82,7 @@ Modules ==
     ELSE {s \in SeqUpTo(Top, 2) : WellFormed(s)}
          \cup {s \in {<<l, c, t>> : l \in Leaf, c \in Class, t \in Leaf \cup Inner} : WellFormed(s)}
 Bogus == {<<"zz">>, <<"A", "zz">>, <<"a", "zz">>, <<"m", "a", "zz">>, <<"A", "m", "zz">>, <<"B", "A", "zz">>, <<"a", "a", "a">>,
-          <<"A", "B">>, <<"m", "m">>}
+          <<"A", "B">>, <<"m", "m">>, <<"am", "m">>, <<"BA", "m">>, <<"B", "am">>}
 
 \* ---- the intended algorithm: iterative descent --------------------------------
 VARIABLES mod, path, cursor, addr, seg, res, pc
